@@ -40,11 +40,6 @@ Proof.
   destruct b1, b2; try reflexivity; lia.
 Qed.
 
-(* without the bound the word wraps modulo P: two different count triples, one felt *)
-Example concat_counts_bound_needed :
-  concat_counts (2^59) 0 0 false = concat_counts 0 ((2^64 - 17 * 2^59) mod 2^64) 0 false -> False.
-Proof. vm_compute. discriminate. Qed.
-
 (* ---------- DA-mode packing ---------- *)
 Theorem da_pack_injective : forall f1 n1 f2 n2, u32 f1 -> u32 n1 -> u32 f2 -> u32 n2 ->
   da_pack f1 n1 = da_pack f2 n2 -> f1 = f2 /\ n1 = n2.
